@@ -21,7 +21,7 @@ HEADER = "From Verif Require Import Gen.Src_Task Gen.Src_Event Model.Sim."
 
 
 def n_worlds(ctx):
-    return 240 if ctx.tier == "quick" else 2400
+    return 160 if ctx.tier == "quick" else 2000
 
 
 def corpus_worlds(pid_dirs=("C05",)):
